@@ -1,10 +1,10 @@
 package sctp
 
 import (
-	"strings"
-	"github.com/pion/sctp/internal/vsched"
 	"fmt"
+	"github.com/pion/sctp/internal/vsched"
 	"sort"
+	"strings"
 	"time"
 )
 
@@ -595,7 +595,7 @@ func propC07(j *Job) {
 		j.Explore(fmt.Sprintf("FR/%s", mode.Name), fwdAcrossResetScenario(withBase(mode.A, 228, 0xFFFFFFF9, 4000), withBase(mode.B, 228, 50, 4000)), Budget{}, nil)
 		// several readers blocked on the stream whose queued messages a skip report releases
 		j.Explore(fmt.Sprintf("RS/%s/readers2", mode.Name), readersGapScenario(withBase(mode.A, 228, 0xFFFFFFFE, 4000), withBase(mode.B, 228, 0xFFFFFFF0, 4000), 2, true), Budget{D: map[bool]int{false: 0, true: 1}[j.Thorough()]}, nil)
-		for _, v := range []string{"crossing", "lost-sacks", "lost-sacks+resp", "late-sack"} {
+		for _, v := range []string{"crossing", "lost-sacks", "lost-sacks+resp", "late-sack", "resp-unregistered"} {
 			j.Explore(fmt.Sprintf("FG/%s/%s", mode.Name, v), fwdAfterResetScenario(withBase(mode.A, 228, 0xFFFFFFF9, 4000), withBase(mode.B, 228, 50, 4000), v), Budget{}, nil)
 		}
 	}
@@ -1170,14 +1170,31 @@ func fwdAfterResetScenario(a, b epCfg, variant string) *Scenario {
 					}
 				}
 			})
-			_, _ = s1.WriteSCTP(payload(1, 0, 30), PayloadTypeWebRTCBinary)
-			m.Sleep(300 * time.Millisecond) // B's delayed acknowledgement of m0 is on its slow way
-			_, _ = s1.WriteSCTP(payload(1, 1, 31), PayloadTypeWebRTCBinary)
-			_ = s1.Close()
-			m.Sleep(50 * time.Millisecond)
-			loseData = 1
-			_, _ = s2.WriteSCTP(payload(2, 0, 32), PayloadTypeWebRTCBinary)
-			if loseSacks {
+			if variant == "resp-unregistered" {
+				// m0 is abandoned before the reset (its SACKs are lost, its skip report arrives);
+				// the reset's first answer is lost and B's own request unregisters the identifier
+				// at A; the repeated request is answered while the identifier is unregistered;
+				// only then a message of stream 2 is lost and abandoned: the next skip report
+				// still starts below m0
+				loseResp = 1
+				_, _ = s1.WriteSCTP(payload(1, 0, 30), PayloadTypeWebRTCBinary)
+				m.Sleep(1200 * time.Millisecond)
+				_ = s1.Close()
+				m.Sleep(2500 * time.Millisecond)
+				loseData = 1
+				_, _ = s2.WriteSCTP(payload(2, 0, 32), PayloadTypeWebRTCBinary)
+				m.Sleep(9 * time.Second)
+				loseSacks = false
+			} else {
+				_, _ = s1.WriteSCTP(payload(1, 0, 30), PayloadTypeWebRTCBinary)
+				m.Sleep(300 * time.Millisecond) // B's delayed acknowledgement of m0 is on its slow way
+				_, _ = s1.WriteSCTP(payload(1, 1, 31), PayloadTypeWebRTCBinary)
+				_ = s1.Close()
+				m.Sleep(50 * time.Millisecond)
+				loseData = 1
+				_, _ = s2.WriteSCTP(payload(2, 0, 32), PayloadTypeWebRTCBinary)
+			}
+			if loseSacks && variant != "resp-unregistered" {
 				if variant == "late-sack" {
 					// after the held-up SACK has arrived (cumulative point one further, still short of
 					// the reset's last TSN) another message of stream 2 is lost and abandoned: the
